@@ -376,8 +376,13 @@ func cmdRun(args []string) int {
 		return 2
 	}
 	pkgSet := map[string]bool{}
+	hpkgSet := map[string]bool{}
 	for _, sp := range specs {
 		pkgSet[sp.Pkg] = true
+		hpkgSet[sp.Pkg] = true
+		for _, x := range sp.Extra {
+			pkgSet[x] = true
+		}
 	}
 	ld, err := loadProgram(pkgSet)
 	if err != nil {
@@ -387,7 +392,7 @@ func cmdRun(args []string) int {
 	loadT := time.Since(start)
 	// package initialisers, once per harness package
 	bases := map[string]*State{}
-	for p := range pkgSet {
+	for p := range hpkgSet {
 		hp := ld.pkgs[p]
 		if hp == nil {
 			fmt.Fprintln(os.Stderr, "package not loaded:", p)
